@@ -28,6 +28,7 @@ FOREIGN = [
     b"commits", b"diffstat", b"# comment", b"* bullet", b"> quote", b"1 file changed",
     # diffstat look-alikes that do not start with a blank (tool output, `git log --graph --stat`)
     b"warning: src/a.rs | 12 problems found", b"| src/a.rs | 2 +-", b"x | 1 +",
+    b"    Benchmark before | 31 ms, after | 12 ms", b" note | 3 of them", b"    a.rs | 2 +- (see above)",
     # several carriage returns (progress output): only a CR that ends the line is line-ending noise
     b"50%\r100%\r", b"a\rb\r\x1b[K", b"x\r\r", b"\x1b[32mok\r\x1b[m done\r\x1b[m",
     # far longer than any panel, far shorter than --max-line-length
